@@ -91,6 +91,9 @@ def run(tier: str) -> int:
     for _ in range(ck.budget(300, 5000)):
         ks = [gen.rand_node(rng, rng.randint(0, 3), leaves=("text", "text", "html", "meta")) for _ in range(rng.randint(1, 5))]
         cases.append(("list", ks, rng.choice([0, 1]), "\n", rng.random() < 0.5, True))
+    for t in gen.alias_trees(rng, ck.budget(300, 4000)):
+        cases.append(("tag", t, rng.choice([0, 1]), "\n"))
+    ck.exhaustive_scopes.append({"scope": "aliasing stream: one string as HTML(), text, _repr_html_ and attribute values in one tree, lengths " + str(gen.ALIAS_LENGTHS), "exhaustive": False})
     subst.check_cases(ck, cases, {"t"}, "a plain-text child must be emitted as its per-character escape")
     ck.extra_cov["extra_evaluations"] = len(cases)
     ck.extra_cov["tree_cases"] = len(cases)
